@@ -250,7 +250,12 @@ class MetaParserModel:
                             conds = [c for c in e.ctx if c['k'] == 'if' and c['pol'] and cname and es(c['cond']).replace(' ', '').startswith('!%s(' % cname)]
                             if loops and conds:
                                 info = analyse_iter(loops[-1]['iter'])
-                                if not info.adaptors and not info.rev:
+                                # every parameter of the list is handed to the handler: no adaptor on the iteration, and nothing leaves
+                                # or cuts short the loop except the refusal itself
+                                lid_ = loops[-1].get('id')
+                                cut = [x for x in fw.events if x.kind == 'exit' and x.how in ('break', 'continue')
+                                       and any(c.get('id') == lid_ and c['k'] == 'for' for c in x.ctx) and not any(c.get('id') == cid for c in x.ctx)]
+                                if not info.adaptors and not info.rev and not cut:
                                     self.tail_loop_ok = True
 
     def closure_result_exits(self, cevs):
